@@ -173,6 +173,8 @@ ADDENDA6 = {
     'C09': ' Commands that may write their FST to stdout print nothing else there (R09.11).',
     'C10': ' The CLI hands files to Fst::new without a length gate of its own.',
     'C13': ' The --sorted CLI builds stream their input (R13.7).',
+    'C14': ' The CLI memory-maps FST files instead of reading them into the heap (R14.7).',
+    'C15': ' Only the constructor and the node compiler assign last_addr (R01.3 shared).',
     'C18': ' Str never claims will_always_match.',
 }
 
